@@ -174,11 +174,13 @@ class Response(Scenario):
     float_shim = ["mxlpy.model", "mxlpy.simulator"]
     isinstance_shim = ["mxlpy.simulation"]
 
-    def __init__(self, normalized, parallel, with_variables, sym_h=True, kind="influx", one_param=False):
+    def __init__(self, normalized, parallel, with_variables, sym_h=True, kind="influx", one_param=False, ia_start=False):
         self.normalized, self.parallel, self.with_variables, self.sym_h = normalized, parallel, with_variables, sym_h
         self.kind, self.one_param = kind, one_param
+        self.ia_start = ia_start  # the first variable's initial value is declared as an initial assignment (only with supplied start values)
         self.key = (f"C18/response/{kind}/{'scaled' if normalized else 'unscaled'}/{'pool' if parallel else 'seq'}/"
-                    f"{'y0-given' if with_variables else 'y0-default'}/{'h-' + str(sym_h) if sym_h else 'h-default'}{'/one-parameter' if one_param else ''}")
+                    f"{'y0-given' if with_variables else 'y0-default'}/{'h-' + str(sym_h) if sym_h else 'h-default'}{'/one-parameter' if one_param else ''}"
+                    f"{'/ia-start' if ia_start else ''}")
         self.timeout_ms = 10000
 
     def run(self, ctx):
@@ -200,6 +202,12 @@ class Response(Scenario):
 
         sym = ctx.symbolic
         m = fm.build(ctx)
+        if self.ia_start:
+            from mxlpy.types import InitialAssignment
+            from vf import ratefns as R_
+
+            m.update_variable(m.get_variable_names()[0], InitialAssignment(fn=R_.twice, args=[m.get_parameter_names()[-1]]))
+        declared_before = {k_: v_.initial_value for k_, v_ in m.get_raw_variables().items()}
         h = 0.25 if self.sym_h == "quarter" else (ctx.real("h") if self.sym_h else 1e-4)
         if self.sym_h is True:
             ctx.assume(h > 0)
@@ -245,6 +253,16 @@ class Response(Scenario):
         ic_after = dict(m.get_initial_conditions())
         ctx.true("initial values are the same terms afterwards", all(same_terms(ic_after[k], ic_before[k]) for k in ic_before),
                  info=str({k: (str(ic_before[k]), str(ic_after.get(k))) for k in ic_before})[:300])
+        declared_after = {k_: v_.initial_value for k_, v_ in m.get_raw_variables().items()}
+
+        def same_declaration(a, b):
+            if hasattr(a, "fn") or hasattr(b, "fn"):
+                return hasattr(a, "fn") and hasattr(b, "fn") and a.fn is b.fn and list(a.args) == list(b.args)
+            return same_terms(a, b)
+
+        ctx.true("initial values are declared as before (an initial assignment stays an initial assignment)",
+                 all(same_declaration(declared_after[k_], declared_before[k_]) for k_ in declared_before),
+                 info=str({k_: (repr(declared_before[k_])[:40], repr(declared_after[k_])[:40]) for k_ in declared_before})[:300])
 
 
 class McElasticity(Scenario):
@@ -328,4 +346,7 @@ def scenarios(tier, seed):
             if tier != "quick":
                 scs.append(Response(normalized, parallel, True, sym_h=False, kind="moiety"))
     scs.append(Response(False, True, True, sym_h=False, kind="influx", one_param=True))
+    # supplied start values over a variable that is declared through an initial assignment: the declaration must survive
+    for parallel in (False, True):
+        scs.append(Response(True, parallel, True, sym_h=False, kind="influx", one_param=True, ia_start=True))
     return scs
